@@ -69,6 +69,9 @@ where
           return;
         }
       }
+      if !s.is_subscribed() {
+        return;
+      }
 
       let sbsc = Arc::new(RwLock::new(None::<Subscription>));
       {
